@@ -180,7 +180,7 @@ GEN_KEYMAP = lambda k: -1 if k < 0 else min(15, 3 * k)
 def gen_scripts(seed, per_worker, workers, max_ops, pick_per_tag, timeout, repair=False, require_tag=None, big=False, family=False):
     d = c.scratch('gen')
     outdir = os.path.join(d, 'out'); os.makedirs(outdir)
-    cfg = open(os.path.join(c.SPEC, 'LsmGenF.cfg' if family else 'LsmGen.cfg')).read()
+    cfg = open(os.path.join(c.SPEC, 'LsmGenA.cfg' if family == 'A' else 'LsmGenF.cfg' if family else 'LsmGen.cfg')).read()
     cfg = cfg.replace('OutDir = "/tmp/lsmgen_out"', 'OutDir = "%s"' % outdir).replace('MaxOps = 14', 'MaxOps = %d' % max_ops)
     if family: max_ops = 25
     if big:
@@ -260,6 +260,16 @@ def gen_layer(prop, tier, seed, out, mc):
             chosen = chosen + chosen_f
             stats['family'] = {k: v for k, v in stats_f.items() if k in ('generated', 'chosen', 'tag_counts')}
             c.rmtree(d_f)
+    if chosen is not None:
+        # fourth generation: four level-0 files, so that the automatic level-0 compaction (compact pointer, level-0 closure,
+        # trivial move of a single non-overlapping file) runs in the real engine
+        chosen_a, stats_a, d_a = gen_scripts(seed + 3, 200 if quick else 2500, 8, 24, 3 if quick else 40, 400 if quick else 3000, family='A')
+        if chosen_a is None:
+            chosen, stats = None, stats_a
+        else:
+            chosen = chosen + chosen_a
+            stats['auto'] = {k: v for k, v in stats_a.items() if k in ('generated', 'chosen', 'tag_counts')}
+            c.rmtree(d_a)
     if chosen is None:
         r = stats
         rd = c.replay_dir(prop, 'gen')
